@@ -28,7 +28,9 @@ func optsString(o *rtapi.RunOpts) string {
 	if o.Debug {
 		p = append(p, "Debug")
 	}
-	if o.Statistics {
+	if o.StatsPreload > 0 {
+		p = append(p, fmt.Sprintf("Statistics(&Stats{ExprCnt: %d})", o.StatsPreload))
+	} else if o.Statistics {
 		p = append(p, "Statistics")
 	}
 	if o.MaxExpr > 0 {
